@@ -146,52 +146,8 @@ func c05() []*Ob {
 				}
 			}},
 		{Prop: "C05", ID: "C05.2", Engine: "PAIR", Floor: 2,
-			Desc: "the sort key is the cut key: for each DocsOrder constant, List.Sort orders fractions by the same border (To for descending, From for ascending) that calcEnsuredIDsCount compares ids with, and that comparison is non-strict (ids equal to the border are not final)",
-			Check: func(c *Ctx) {
-				sortFn, ensFn := c.Fn("(fracmanager.List).Sort"), c.Fn("fracmanager.calcEnsuredIDsCount")
-				isDesc, isRev := c.Fn("(seq.DocsOrder).IsDesc"), c.Fn("(seq.DocsOrder).IsReverse")
-				if sortFn == nil || ensFn == nil || isDesc == nil || isRev == nil {
-					return
-				}
-				sortBr := closuresByBranch(sortFn, "(seq.DocsOrder).IsDesc")
-				ensBr := closuresByBranch(ensFn, "(seq.DocsOrder).IsReverse")
-				if len(sortBr) != 2 || len(ensBr) != 2 {
-					c.Undecided("pair:sort-cut:shape", sortFn.Pos(), "List.Sort / calcEnsuredIDsCount no longer branch on IsDesc / IsReverse with one comparator closure per branch (found %d / %d)", len(sortBr), len(ensBr))
-					return
-				}
-				for name, k := range c.P.EnumConsts("seq", "DocsOrder") {
-					d, ok1 := orderPredValue(isDesc, k)
-					r, ok2 := orderPredValue(isRev, k)
-					if !ok1 || !ok2 {
-						c.Undecided("pair:sort-cut:pred", isDesc.Pos(), "IsDesc/IsReverse are no longer one-line comparisons with a DocsOrder constant")
-						continue
-					}
-					sf, sop := borderFieldOf(sortBr[d])
-					ef, eop := borderFieldOf(ensBr[r])
-					if sf == "" || ef == "" {
-						c.Undecided("pair:sort-cut:field:"+name, sortFn.Pos(), "cannot see which frac.Info border is compared for %s", name)
-						continue
-					}
-					wantField := "To"
-					if !d {
-						wantField = "From"
-					}
-					if sf == ef && sf == wantField {
-						c.Site(sortFn.Pos(), "%s: fractions sorted by Info.%s (%s), ids compared with the next fraction's Info.%s", name, sf, sop, ef)
-					} else {
-						c.Violation("pair:sort-cut:"+name, ensFn.Pos(), "for %s the fraction list is sorted by Info.%s but the early-termination test uses Info.%s (expected %s for both): ids are declared final although an unsearched fraction can still displace them", name, sf, ef, wantField)
-					}
-					// direction of the sort: descending by To uses '>', ascending by From uses '<'
-					if d && sop != token.GTR && sop != token.GEQ || !d && sop != token.LSS && sop != token.LEQ {
-						c.Violation("pair:sort-direction:"+name, sortFn.Pos(), "for %s the fractions are sorted in the wrong direction (%s on Info.%s)", name, sop, sf)
-					}
-					if eop == token.LEQ || eop == token.GEQ {
-						c.Site(ensFn.Pos(), "%s: ids equal to the border are not final (non-strict %s)", name, eop)
-					} else {
-						c.Violation("pair:cut-nonstrict:"+name, ensFn.Pos(), "for %s the early-termination test is strict (%s): an id whose timestamp equals the next fraction's border is declared final although that fraction can hold ids with the same timestamp that sort before it", name, eop)
-					}
-				}
-			}},
+			Desc:  "the sort key is the cut key: for each DocsOrder constant, List.Sort orders fractions by the same border (To for descending, From for ascending) that calcEnsuredIDsCount compares ids with, and that comparison is non-strict (ids equal to the border are not final)",
+			Check: func(c *Ctx) { sortKeyIsCutKey(c) }},
 		{Prop: "C05", ID: "C05.4", Engine: "PROV+ORDER", Floor: 2,
 			Desc: "limits and arguments: the store searches with limit = size + offset; the proxy merges with offset + size and paginates after the merge; every MergeQPRs call in the proxy takes interval and order from the search request",
 			Check: func(c *Ctx) {
@@ -260,45 +216,8 @@ func c05() []*Ob {
 				}
 			}},
 		{Prop: "C05", ID: "C05.6", Engine: "PAIR(key)", Floor: 1,
-			Desc: "a repetition is the same document id, wherever it came from: removeRepetitionsAdvanced (the merge of per-fraction and per-shard results) compares IDSource.ID and never reads IDSource.Source or Hint, directly or through a helper (the same document answered by two shards differs only in Source)",
-			Check: func(c *Ctx) {
-				fn := c.Fn("seq.removeRepetitionsAdvanced")
-				if fn == nil {
-					return
-				}
-				bad := false
-				for _, f := range []string{"Source", "Hint"} {
-					for _, l := range c.P.FindLifted(fn, FieldLoad("seq.IDSource", f)) {
-						// reads that only feed the kept element (copying the struct) are not comparisons
-						usedInCompare := false
-						if v, ok := l.In.(ssa.Value); ok {
-							for _, r := range *v.Referrers() {
-								if bo, isBo := r.(*ssa.BinOp); isBo && (bo.Op == token.EQL || bo.Op == token.NEQ) {
-									usedInCompare = true
-								}
-							}
-						}
-						if usedInCompare {
-							bad = true
-							c.Violation("pair:removeRepetitions:key:"+f, l.In.Pos(), "the repetition test of the result merge compares IDSource.%s: the same document returned by two shards (or fractions) is kept twice, the total is not reduced and pages repeat documents", f)
-						}
-					}
-				}
-				for _, l := range c.P.FindLifted(fn, func(in ssa.Instruction) bool {
-					bo, ok := in.(*ssa.BinOp)
-					return ok && (bo.Op == token.EQL || bo.Op == token.NEQ) && strings.HasSuffix(bo.X.Type().String(), "seq.IDSource")
-				}) {
-					bad = true
-					c.Violation("pair:removeRepetitions:key:struct", l.In.Pos(), "the repetition test of the result merge compares whole IDSource values (id, source and hint): the same document returned by two shards is kept twice")
-				}
-				if !c.P.Has(fn, FieldLoad("seq.IDSource", "ID")) {
-					c.Violation("pair:removeRepetitions:no-id", fn.Pos(), "removeRepetitionsAdvanced no longer compares the document ids")
-					bad = true
-				}
-				if !bad {
-					c.Site(fn.Pos(), "repetitions are decided by IDSource.ID alone")
-				}
-			}},
+			Desc:  "a repetition is the same document id, wherever it came from: removeRepetitionsAdvanced (the merge of per-fraction and per-shard results) compares IDSource.ID and never reads IDSource.Source or Hint, directly or through a helper (the same document answered by two shards differs only in Source)",
+			Check: func(c *Ctx) { repetitionKeyIsID(c) }},
 		{Prop: "C05", ID: "C05.7", Engine: "SIBLING+ORDER+DOM", Floor: 1,
 			Desc:  "a sealed fraction is never pruned away from a search that its documents belong to: the occupancy map is built from every id of the fraction, with the bucket function that tests it (shared rule with C14.4 — a document that is found while its fraction is active must still be found after sealing)",
 			Check: func(c *Ctx) { occupancyMapComplete(c) }},
@@ -340,5 +259,92 @@ func c05() []*Ob {
 					}
 				}
 			}},
+	}
+}
+
+// sortKeyIsCutKey: rule body of C05.2, shared with other properties.
+func sortKeyIsCutKey(c *Ctx) {
+	sortFn, ensFn := c.Fn("(fracmanager.List).Sort"), c.Fn("fracmanager.calcEnsuredIDsCount")
+	isDesc, isRev := c.Fn("(seq.DocsOrder).IsDesc"), c.Fn("(seq.DocsOrder).IsReverse")
+	if sortFn == nil || ensFn == nil || isDesc == nil || isRev == nil {
+		return
+	}
+	sortBr := closuresByBranch(sortFn, "(seq.DocsOrder).IsDesc")
+	ensBr := closuresByBranch(ensFn, "(seq.DocsOrder).IsReverse")
+	if len(sortBr) != 2 || len(ensBr) != 2 {
+		c.Undecided("pair:sort-cut:shape", sortFn.Pos(), "List.Sort / calcEnsuredIDsCount no longer branch on IsDesc / IsReverse with one comparator closure per branch (found %d / %d)", len(sortBr), len(ensBr))
+		return
+	}
+	for name, k := range c.P.EnumConsts("seq", "DocsOrder") {
+		d, ok1 := orderPredValue(isDesc, k)
+		r, ok2 := orderPredValue(isRev, k)
+		if !ok1 || !ok2 {
+			c.Undecided("pair:sort-cut:pred", isDesc.Pos(), "IsDesc/IsReverse are no longer one-line comparisons with a DocsOrder constant")
+			continue
+		}
+		sf, sop := borderFieldOf(sortBr[d])
+		ef, eop := borderFieldOf(ensBr[r])
+		if sf == "" || ef == "" {
+			c.Undecided("pair:sort-cut:field:"+name, sortFn.Pos(), "cannot see which frac.Info border is compared for %s", name)
+			continue
+		}
+		wantField := "To"
+		if !d {
+			wantField = "From"
+		}
+		if sf == ef && sf == wantField {
+			c.Site(sortFn.Pos(), "%s: fractions sorted by Info.%s (%s), ids compared with the next fraction's Info.%s", name, sf, sop, ef)
+		} else {
+			c.Violation("pair:sort-cut:"+name, ensFn.Pos(), "for %s the fraction list is sorted by Info.%s but the early-termination test uses Info.%s (expected %s for both): ids are declared final although an unsearched fraction can still displace them", name, sf, ef, wantField)
+		}
+		// direction of the sort: descending by To uses '>', ascending by From uses '<'
+		if d && sop != token.GTR && sop != token.GEQ || !d && sop != token.LSS && sop != token.LEQ {
+			c.Violation("pair:sort-direction:"+name, sortFn.Pos(), "for %s the fractions are sorted in the wrong direction (%s on Info.%s)", name, sop, sf)
+		}
+		if eop == token.LEQ || eop == token.GEQ {
+			c.Site(ensFn.Pos(), "%s: ids equal to the border are not final (non-strict %s)", name, eop)
+		} else {
+			c.Violation("pair:cut-nonstrict:"+name, ensFn.Pos(), "for %s the early-termination test is strict (%s): an id whose timestamp equals the next fraction's border is declared final although that fraction can hold ids with the same timestamp that sort before it", name, eop)
+		}
+	}
+}
+
+// repetitionKeyIsID: rule body of C05.6, shared with other properties.
+func repetitionKeyIsID(c *Ctx) {
+	fn := c.Fn("seq.removeRepetitionsAdvanced")
+	if fn == nil {
+		return
+	}
+	bad := false
+	for _, f := range []string{"Source", "Hint"} {
+		for _, l := range c.P.FindLifted(fn, FieldLoad("seq.IDSource", f)) {
+			// reads that only feed the kept element (copying the struct) are not comparisons
+			usedInCompare := false
+			if v, ok := l.In.(ssa.Value); ok {
+				for _, r := range *v.Referrers() {
+					if bo, isBo := r.(*ssa.BinOp); isBo && (bo.Op == token.EQL || bo.Op == token.NEQ) {
+						usedInCompare = true
+					}
+				}
+			}
+			if usedInCompare {
+				bad = true
+				c.Violation("pair:removeRepetitions:key:"+f, l.In.Pos(), "the repetition test of the result merge compares IDSource.%s: the same document returned by two shards (or fractions) is kept twice, the total is not reduced and pages repeat documents", f)
+			}
+		}
+	}
+	for _, l := range c.P.FindLifted(fn, func(in ssa.Instruction) bool {
+		bo, ok := in.(*ssa.BinOp)
+		return ok && (bo.Op == token.EQL || bo.Op == token.NEQ) && strings.HasSuffix(bo.X.Type().String(), "seq.IDSource")
+	}) {
+		bad = true
+		c.Violation("pair:removeRepetitions:key:struct", l.In.Pos(), "the repetition test of the result merge compares whole IDSource values (id, source and hint): the same document returned by two shards is kept twice")
+	}
+	if !c.P.Has(fn, FieldLoad("seq.IDSource", "ID")) {
+		c.Violation("pair:removeRepetitions:no-id", fn.Pos(), "removeRepetitionsAdvanced no longer compares the document ids")
+		bad = true
+	}
+	if !bad {
+		c.Site(fn.Pos(), "repetitions are decided by IDSource.ID alone")
 	}
 }
